@@ -174,6 +174,7 @@ class System:
         self.eqs = {}
         self.iq = {}          # linear part (sorted term tuple) -> tightest Lin with that linear part
         self.neqs = set()     # Lin e with e != 0 (only used to refute later equalities)
+        self.cand = set()     # inequalities in the form they were asserted (not reduced): join candidates
         self.bottom = False
 
     @property
@@ -199,6 +200,7 @@ class System:
         s.eqs = dict(self.eqs)
         s.iq = dict(self.iq)
         s.neqs = set(self.neqs)
+        s.cand = set(self.cand)
         s.bottom = self.bottom
         return s
 
@@ -279,13 +281,39 @@ class System:
             else:
                 newi.add(q)
         self.ineqs = newi
+        self._pair_equalities()
         if self.neqs:
             self._check_neqs()
+
+    def _pair_equalities(self):
+        """lin + c1 >= 0 and -lin + c2 >= 0 with c1 + c2 == 0 is an equality (integer tightening often produces these)"""
+        for _ in range(8):
+            found = None
+            for k, q in self.iq.items():
+                kn = tuple(sorted((v, -c) for v, c in k))
+                o = self.iq.get(kn)
+                if o is not None:
+                    if o.c + q.c < 0:
+                        self.bottom = True
+                        return
+                    if o.c + q.c == 0:
+                        found = (k, kn, q)
+                        break
+            if found is None or self.bottom:
+                return
+            k, kn, q = found
+            del self.iq[k]
+            self.iq.pop(kn, None)
+            self.add_eq(q)
 
     def add_ge(self, e):
         """assume e >= 0"""
         if self.bottom:
             return
+        if 1 < len(e.t) <= 4 and len(self.cand) < 96:
+            n0 = norm_ineq(e)
+            if n0 is not True and n0 is not False:
+                self.cand.add(n0)
         n = norm_ineq(self.reduce(e))
         if n is True:
             return
@@ -436,6 +464,8 @@ class System:
         vs = set(vs)
         if self.neqs:
             self.neqs = {q for q in (self.reduce(x) for x in self.neqs) if not (set(q.t) & vs) and not q.is_const()}
+        if self.cand:
+            self.cand = {q for q in self.cand if not (set(q.t) & vs)}
         for v in list(vs):
             if v in self.eqs:
                 # pivot: just drop its defining row (no other row mentions a pivot)
@@ -479,6 +509,7 @@ class System:
             s.eqs[f(p)] = ex.rename(f)
         s.ineqs = [q.rename(f) for q in self.iq.values()]
         s.neqs = {q.rename(f) for q in self.neqs}
+        s.cand = {q.rename(f) for q in self.cand}
         return s
 
     def all_constraints(self):
@@ -492,15 +523,26 @@ class System:
                               "; ".join("%r >= 0" % q for q in sorted(self.ineqs, key=lambda q: repr(q))))
 
 
+import re as _re
+_INPUT = _re.compile(r"^t\d+_a\d+(_|$)")
+
+
 def _pivot_rank(v):
-    """which variable to solve for first: temporaries (higher rank) before named symbolic inputs"""
-    # variable names: 't<n>...' temporaries/phis, 'len:...' / 'in:...' inputs
-    if v.startswith("t"):
+    """which variable to solve for first: temporaries (highest rank) before join variables before canonical function
+    results before symbolic inputs - so that reduced forms are expressed over the inputs whenever possible"""
+    if _INPUT.match(v):
+        return 0
+    c = v[0]
+    if c == "t":
         try:
-            return 1000000 + int(v[1:].split("@")[0].split(":")[0])
+            return 1000000 + int(v[1:].split("_")[0].split("@")[0].split(":")[0])
         except ValueError:
             return 1000000
-    return 0
+    if c == "p":
+        return 500000
+    if c in ("f", "e"):
+        return 1000
+    return 10
 
 
 def _eliminate(cons, v, drop_on_cap=False):
@@ -677,10 +719,14 @@ def join(a, b, extra_candidates=()):
             cands.add(n)
     for q in a.neqs & b.neqs:
         r.neqs.add(q)
+    for q in a.cand | b.cand:
+        cands.add(q)
     for q in cands:
         ea, eb = a.entails_ge(q), b.entails_ge(q)
         if ea and eb:
             r.add_ge(q)
+            if q in a.cand or q in b.cand:
+                r.cand.add(q)
         elif ea or eb:
             # relax the constant: the side that does not entail q may still bound its expression from below
             m = (b if ea else a).min_of(q)
